@@ -21,6 +21,17 @@ def enumerate_index(loop):
     return None
 
 
+def _truth_substitution(node, key):
+    """Sub-expressions `<read of key> or X` / `A if <read of key> else B`: the configured value is truth-tested."""
+    out = []
+    for n in ast.walk(node):
+        if isinstance(n, ast.BoolOp) and any(key in norm(v) for v in n.values[:-1]):
+            out.append(n)
+        elif isinstance(n, ast.IfExp) and not isinstance(n.test, ast.Compare) and key in norm(n.test):
+            out.append(n)
+    return out
+
+
 def run(ctx: Ctx, tier: str) -> Result:
     res = Result("C05")
     res.explanation = (
@@ -318,7 +329,12 @@ def run(ctx: Ctx, tier: str) -> Result:
             src = ctx.expand.expand(n.value, cc)
             key = "'%s'" % tg.attr.upper()
             dflt = "DEFAULT_%s" % tg.attr.upper()
-            if len(src) == 1 and key in src[0] and dflt in src[0]:
+            srcn = ctx.expand.expand_nodes(n.value, cc)
+            subst = [x for sn in srcn for x in _truth_substitution(sn, key)]
+            if subst:
+                res.fail(Finding("C05.WIRE", cc.qname, n, cc.loc(n), "limit %s: the configured value is replaced when it is falsy (`%s`): a limit "
+                                 "configured as 0 silently becomes the default" % (tg.attr, norm(subst[0])[:100])))
+            elif len(src) == 1 and key in src[0] and dflt in src[0]:
                 res.ok("C05.WIRE", {tg.attr: src[0]})
             else:
                 res.fail(Finding("C05.WIRE", cc.qname, n, cc.loc(n), "limit %s is not read from key %s with its own default: %s" % (tg.attr, key, src)))
@@ -340,7 +356,21 @@ def run(ctx: Ctx, tier: str) -> Result:
             res.ok("C05.WIRE", {"ctor": norm(st)})
         else:
             res.fail(Finding("C05.WIRE", init.qname, st, init.loc(st), "configuration constructor stores a limit into the wrong field"))
+    # one breadth-first search per frame: all locals are siblings of a single search, so that a deep local
+    # cannot use up the budget before the next local has been looked at
     fc = p.func("deep.processor.frame_collector.FrameCollector._process_frame")
+    pvc = [c for c in t.calls_in(fc) if any(x.name == "process_variable" and x.cls is not None and x.cls.qname == VSP for x in t.resolve_call(c, fc).repo)]
+    need(pvc, "_process_frame: process_variable call not found")
+    for c in pvc:
+        loops_ = paths.enclosing_loops(p, c, fc)
+        val = ctx.expand.expand(c.args[1], fc) if len(c.args) > 1 else []
+        if loops_:
+            res.fail(Finding("C05.QUEUE", fc.qname, c, fc.loc(c), "the frame's locals are searched one by one (a search per local) instead of as siblings of one "
+                             "breadth-first search: the first local's subtree is collected before the next local is looked at"))
+        elif val != ["%s.f_locals" % P(fc, 3)]:
+            res.fail(Finding("C05.QUEUE", fc.qname, c, fc.loc(c), "the frame search does not start from the frame's whole locals mapping: %s" % val))
+        else:
+            res.ok("C05.QUEUE", {"one search per frame over": val[0]})
     vs = [c for c in t.calls_in(fc) if any(k.qname == VSP for k in t.resolve_call(c, fc).ctor)]
     need(len(vs) == 1, "_process_frame: VariableSetProcessor construction not found")
     carg = t.bind_args(vsp.lookup("__init__"), vs[0]).get("config")
